@@ -29,17 +29,21 @@ type JobOpts struct {
 	Mode    string `json:"mode"` // "" engine run; other modes are dispatched by the worker
 	// HoldPoints restricts the hook points single-hold policies choose from
 	HoldPoints []string `json:"hold_points"`
+	Sub2       bool     `json:"sub2"`
 }
 
 type Job struct {
 	Programs  []*prog.Program  `json:"programs"`
 	Schedules []drive.Schedule `json:"schedules"`
 	Opts      JobOpts          `json:"opts"`
+	// Mode "tracer": one tracer scenario per entry of Schedules (same index)
+	Tracer []drive.TracerScenario `json:"tracer"`
 }
 
 type RunLog struct {
-	Run int         `json:"run"`
-	Log []drive.Rec `json:"log"`
+	Run  int          `json:"run"`
+	Log  []drive.Rec  `json:"log"`
+	TLog []drive.TRec `json:"tlog,omitempty"`
 }
 
 func (o JobOpts) driveOpts() drive.Options {
@@ -57,6 +61,8 @@ func (o JobOpts) driveOpts() drive.Options {
 	d.Seed = o.Seed
 	d.Auto = o.Auto
 	d.Perturb = o.Perturb
+	d.Sub2 = o.Sub2
+	d.Sub2 = o.Sub2
 	return d
 }
 
@@ -96,12 +102,18 @@ func WorkerMain(args []string) int {
 			return 3
 		}
 		sch := &job.Schedules[i]
-		p := job.Programs[sch.Prog]
 		// progress marker: lets the parent attribute a crash to this run
 		fmt.Fprintf(out, "{\"run\":%d,\"begin\":true}\n", i)
 		sched.Install(sched.ForRun(job.Opts.Perturb, job.Opts.Seed, i, job.Opts.HoldPoints))
-		log := drive.Run(i, p, sch, job.Opts.driveOpts())
-		line, _ := json.Marshal(RunLog{Run: i, Log: log})
+		var line []byte
+		if job.Opts.Mode == "tracer" {
+			tlog := drive.TracerRun(i, job.Tracer[i])
+			line, _ = json.Marshal(RunLog{Run: i, Log: []drive.Rec{}, TLog: tlog})
+		} else {
+			p := job.Programs[sch.Prog]
+			log := drive.Run(i, p, sch, job.Opts.driveOpts())
+			line, _ = json.Marshal(RunLog{Run: i, Log: log})
+		}
 		out.Write(append(line, '\n'))
 		done++
 	}
@@ -113,6 +125,16 @@ func WorkerMain(args []string) int {
 // (panic in an engine goroutine) is recorded as a "crash" record of the run
 // in progress.
 func ReplayAll(dir string, job *Job, nworkers int) (map[int][]drive.Rec, error) {
+	raw, err := ReplayAllRaw(dir, job, nworkers)
+	out := map[int][]drive.Rec{}
+	for r, rl := range raw {
+		out[r] = rl.Log
+	}
+	return out, err
+}
+
+// ReplayAllRaw is ReplayAll returning the complete per-run records.
+func ReplayAllRaw(dir string, job *Job, nworkers int) (map[int]RunLog, error) {
 	self, err := os.Executable()
 	if err != nil {
 		return nil, err
@@ -128,7 +150,7 @@ func ReplayAll(dir string, job *Job, nworkers int) (map[int][]drive.Rec, error) 
 	if nworkers < 1 {
 		nworkers = 1
 	}
-	res := map[int][]drive.Rec{}
+	res := map[int]RunLog{}
 	var mu sync.Mutex
 	var wg sync.WaitGroup
 	var firstErr error
@@ -193,10 +215,10 @@ func ReplayAll(dir string, job *Job, nworkers int) (map[int][]drive.Rec, error) 
 				// crash during run lastBegin
 				if lastBegin > lastDone {
 					mu.Lock()
-					res[lastBegin] = []drive.Rec{
+					res[lastBegin] = RunLog{Run: lastBegin, Log: []drive.Rec{
 						{Run: lastBegin, Ev: "init", N: job.Schedules[lastBegin].Prog, Flows: []string{}, Vars: map[string]int{}},
 						{Run: lastBegin, Ev: "crash", Kind: crashSummary(stderr.String()), Flows: []string{}, Vars: map[string]int{}},
-					}
+					}, TLog: []drive.TRec{{Run: lastBegin, Ev: "init", P: 1}, {Run: lastBegin, Ev: "crash", S: crashSummary(stderr.String())}}}
 					mu.Unlock()
 					start = lastBegin + 1
 				} else {
@@ -210,7 +232,7 @@ func ReplayAll(dir string, job *Job, nworkers int) (map[int][]drive.Rec, error) 
 				}
 				if rl.Log != nil {
 					mu.Lock()
-					res[rl.Run] = rl.Log
+					res[rl.Run] = rl
 					mu.Unlock()
 				}
 				return nil
